@@ -319,6 +319,23 @@ func (g *Global) loadContracts(specDir string) error {
 			return err
 		}
 	}
+	// a trusted unit that promises a fresh result must be marked `allocates`: otherwise the allocation counter does
+	// not advance at the call and fresh(result) contradicts the typing fact result <= $alloc (callers become vacuous)
+	var bad []string
+	for k, u := range g.C.Units {
+		if u.Trusted && !u.Opts["allocates"] {
+			for _, e := range u.Ensures {
+				if strings.Contains(e.Text, "fresh(") {
+					bad = append(bad, k)
+					break
+				}
+			}
+		}
+	}
+	if len(bad) > 0 {
+		sort.Strings(bad)
+		return fmt.Errorf("trusted units with fresh(...) in an ensures but without the `allocates` option: %s", strings.Join(bad, ", "))
+	}
 	return nil
 }
 
